@@ -10,8 +10,21 @@ def mk_tensor(ids, nest, explicit):
     """operand tensor from a dense nest; explicit=True keeps zeros as explicit defaults / all-zero rows as all-default sub-fibers;
     explicit="estimated" builds the canonical tree (zeros dropped) but gives the tensor no shape, so every rank shape is estimated"""
     if explicit == "estimated":
-        f = Fiber.fromUncompressed(nest)
-        return Tensor.fromFiber(ids, f)
+        # plain Fiber constructors without any shape: every fiber's extent is its own largest coordinate + 1, the rank shapes are
+        # whatever the tensor works out from the fibers it is given (rows of different widths)
+        def build0(n):
+            if isinstance(n[0], list):
+                cs, ps = [], []
+                for i, sub in enumerate(n):
+                    g = build0(sub)
+                    if g is not None:
+                        cs.append(i)
+                        ps.append(g)
+                return Fiber(cs, ps) if cs else None
+            cs = [i for i, v in enumerate(n) if v != 0]
+            return Fiber(cs, [n[i] for i in cs]) if cs else None
+        f = build0(nest)
+        return Tensor.fromFiber(ids, f if f is not None else Fiber([], []))
     if explicit:
         def build(n):
             if isinstance(n[0], list):
